@@ -130,6 +130,30 @@ def run(prog: Program, rep: Report, tier: str):
                            f"{nd} draws on the seeded path, all on the per-sample generator", line=fi.node.lineno,
                            clause="C08.2", nontrivial=nd > 0)
                 o.func = fi.qualname
+        # interprocedural: from every getitem_* entry, through helpers called on self
+        kdw = prog.cls("KDWrapper")
+        for name in sorted({n for K in C.mro_classes() for n in K.methods if n.startswith("getitem_")}):
+            entry = C.lookup(name)
+            if entry is None or entry.cls is None or kdw not in entry.cls.mro() or entry.cls is kdw:
+                continue
+            fa_e = fa_of(prog, entry)
+            assume = seed_not_none_assumption(fa_e)
+            for m, ts in sorted(members.items(), key=lambda kv: str(kv[0])):
+                if m.kind != "attr":
+                    continue
+                needed = own.needed_classes(ts, needs)
+                if not needed:
+                    continue
+                exposed, _ = sa.summarize(C, entry, m, needed, assume)
+                o = rep.decide(not exposed, "G3.inject-before-apply", entry.module, f"entry:{name}->{m}",
+                               f"every application of {m} reachable from {name} (through helpers on self) is preceded by the "
+                               f"injection of the per-sample generator",
+                               "; ".join(f"{m} is applied in {fn} (line {ln}) on a path from {name} on which no per-sample "
+                                         f"generator was injected ({path})" for fn, ln, path in exposed[:3]),
+                               line=entry.node.lineno, clause="C08.2")
+                o.func = f"{entry.cls.name}.{name}"
+                if entry.cls is not C:
+                    o.detail += f" [analysed for {C.name}]"
         # purity + idx passthrough of all getitem_* / _getitem methods
         for name in sorted({n for K in C.mro_classes() for n in K.methods}):
             if not (name.startswith("getitem_") or name == "_getitem"):
